@@ -37,6 +37,8 @@ type tplItem struct {
 	fn      string   // hole: the lowering function (frame) that ran the sub-compilation
 	argDesc string   // hole: what is compiled, resolved through parameters (e#0.Cond, <query:key>, …)
 	chain   string   // hole: the lowering functions on the executor's call stack, outermost first
+	paired  bool     // the remaining slot of a long hole taken for a two-instruction fragment: holePop/holePush are exact
+	origin  string   // the AST argument whose sub-compilation this slot came from (both slots of a long hole; kept when an op is pinned)
 }
 
 // tplHoleRec logs one sub-compilation in program order (kept even when the hole is chosen empty).
@@ -671,17 +673,63 @@ func (r *tplRun) evalCond(e ast.Expr, env *tplEnv) (bool, bool) {
 					switch {
 					case it.nilSlot:
 						r.unsupported("op of an unfilled lazy slot read at %s", r.c.Pos(x.Pos()))
+					case it.isHole && it.single && it.paired && bcEffects[opID.Name] != [2]int{it.holePop, it.holePush}:
+						// the other half of a two-instruction fragment: its stack effect is known, and the op asked for has another
+						eq = false
 					case it.isHole && it.single:
 						// an unknown single instruction: free choice, and the choice pins the op for the rest of the run
 						// (a bracket-balanced one-instruction fragment cannot be a bracket, a scope delimiter or a jump)
-						if tplSingleOps[opID.Name] && r.decide(fmt.Sprintf("item%d.op==%s", idx, opID.Name), 2) == 1 {
+						if (tplSingleOps[opID.Name] || it.paired && tplPairOps[opID.Name]) && r.decide(fmt.Sprintf("item%d.op==%s", idx, opID.Name), 2) == 1 {
 							it.isHole = false
 							it.ins = bcIns{Op: opID.Name, Target: -1, Var: -1, Pos: it.ins.Pos}
 							it.tag = "single-instruction argument assumed to be " + opID.Name
 							eq = true
 						}
 					case it.isHole:
-						eq = false // the boundary instructions of a longer sub-compilation are not the structural op asked for
+						// a slot of a longer sub-compilation. Its boundary instructions are in general not the structural op asked
+						// for — except that the fragment may consist of exactly two plain instructions, the asked one among them
+						// (`$x` is oppop, opload): explored as a choice of its own, which pins this slot and turns the partner slot
+						// into a single unknown instruction with the stack effect that keeps the fragment's contract
+						eq = false
+						second := strings.HasSuffix(it.ins.Hole, "…")
+						pidx := idx + 1
+						if second {
+							pidx = idx - 1
+						}
+						eff, known := bcEffects[opID.Name]
+						if known && tplPairOps[opID.Name] && pidx >= 0 && pidx < len(r.items) && r.items[pidx].isHole && !r.items[pidx].single &&
+							strings.TrimSuffix(r.items[pidx].ins.Hole, "…") == strings.TrimSuffix(it.ins.Hole, "…") && strings.HasSuffix(r.items[pidx].ins.Hole, "…") != second {
+							other := &r.items[pidx]
+							firstIt, secondIt := it, other
+							if second {
+								firstIt, secondIt = other, it
+							}
+							P, Q := firstIt.holePop, secondIt.holePush
+							var oPop, oPush int
+							feasible := true
+							if !second { // this slot runs first
+								mid := P - eff[0] + eff[1]
+								feasible = P >= eff[0] && mid >= 0
+								oPop, oPush = mid, Q
+							} else {
+								mid := Q + eff[0] - eff[1]
+								feasible = mid >= 0 && Q >= eff[1]
+								oPop, oPush = P, mid
+							}
+							if feasible && r.decide(fmt.Sprintf("item%d.op==%s(two-instruction fragment)", idx, opID.Name), 2) == 1 {
+								meta := *firstIt // the first slot carries what is known about the sub-compilation
+								other.single, other.paired, other.holePop, other.holePush = true, true, oPop, oPush
+								if second {
+									// the remaining first half still receives the fragment's input: it keeps what is known of the
+									// sub-compilation (the second half, like every `…` slot, is fed by the first)
+									other.arg, other.argDesc, other.fn, other.chain, other.visible, other.regions = meta.arg, meta.argDesc, meta.fn, meta.chain, meta.visible, meta.regions
+								}
+								it.isHole = false
+								it.ins = bcIns{Op: opID.Name, Target: -1, Var: -1, Pos: it.ins.Pos}
+								it.tag = "two-instruction fragment assumed to contain " + opID.Name
+								eq = true
+							}
+						}
 					default:
 						eq = it.ins.Op == opID.Name
 					}
@@ -1167,6 +1215,11 @@ func (r *tplRun) runCloser(v tVal) {
 var tplSingleOps = map[string]bool{"opconst": true, "opcall": true, "opload": true, "opindex": true, "opindexarray": true, "opiter": true,
 	"opobject": true, "opcallrec": true, "oppush": true, "opnop": true}
 
+// tplPairOps are the plain instructions a two-instruction fragment may be asked about (the peephole tests of the lowering
+// functions look for them at the boundary of a sub-compilation).
+var tplPairOps = map[string]bool{"oppop": true, "opload": true, "oppush": true, "opconst": true, "opdup": true, "opindex": true, "opindexarray": true,
+	"opiter": true, "opnop": true, "opstore": true}
+
 // tplHoleMin: sub-compilations that always emit at least one instruction.
 var tplHoleMin = map[string]bool{"compilePattern": true}
 
@@ -1191,7 +1244,7 @@ func (r *tplRun) hole(name string, pop, push int, pos token.Pos, canBeEmpty bool
 	regions := append([]int(nil), r.regions...)
 	mk := func(single bool) tplItem {
 		return tplItem{isHole: true, single: single, holePop: pop, holePush: push, visible: visible, regions: regions, arg: r.curArg, loop: fmt.Sprint(r.loopIx),
-			fn: r.frame().fn.Name.Name, argDesc: r.curArgDesc, chain: r.chain(),
+			fn: r.frame().fn.Name.Name, argDesc: r.curArgDesc, chain: r.chain(), origin: r.curArg,
 			ins: bcIns{Op: "hole", Target: -1, Var: -1, Pos: pos, Hole: name}}
 	}
 	r.holeLog = append(r.holeLog, tplHoleRec{name: name, arg: r.curArg, regions: regions, frame: len(r.frames), fn: r.frame().fn.Name.Name})
@@ -1205,7 +1258,7 @@ func (r *tplRun) hole(name string, pop, push int, pos token.Pos, canBeEmpty bool
 	case 2:
 		// two slots so that instruction counting (len(c.codes)-pc) sees "more than one instruction"
 		a := mk(false)
-		b := tplItem{isHole: true, loop: fmt.Sprint(r.loopIx), holePop: push, holePush: push, ins: bcIns{Op: "hole", Target: -1, Var: -1, Pos: pos, Hole: name + "…"}}
+		b := tplItem{isHole: true, loop: fmt.Sprint(r.loopIx), holePop: push, holePush: push, origin: r.curArg, ins: bcIns{Op: "hole", Target: -1, Var: -1, Pos: pos, Hole: name + "…"}}
 		r.items = append(r.items, a, b)
 	}
 }
